@@ -196,6 +196,20 @@ def task_roundtrip(name: str, col: common.Collector) -> None:
     try:
         db1 = H.load_bytes(source_bytes(name))
     except Exception as e:
+        # a source that loads with its members in another order is not a broken source: the
+        # loaded database depends on the order of the files in the archive
+        members = list(H.pdx_members(source_bytes(name)))
+        for order in (members[::-1], sorted(members), sorted(members, reverse=True)):
+            if order == members:
+                continue
+            try:
+                H.load_bytes(H.rezip(source_bytes(name), order))
+            except Exception:
+                continue
+            col.ev()
+            _viol(col, ("load-depends-on-member-order", cls, tag),
+                  dict(base, fails_with_order=members, loads_with_order=order, problem=_exc(e)))
+            return
         col.fail_inconclusive(f"source {name} does not load: {_exc(e)}")
         return
     col.ev()
@@ -575,7 +589,7 @@ def judge_perturbation(p: Pert, col: common.Collector,
     base = {"mode": "perturb", "source": name, "path": list(path), "cls": cls, "field": field,
             "kind": kind, "path_str": H.path_str(path + (field,))}
     text = [c for c in cands if c[0] in ("plain", "meta")]
-    pre = [c for c in cands if c[0] not in ("plain", "meta")]
+    pre = [c for c in cands if c[0] not in ("plain", "meta", "whitespace")]
     want = set()
     if pre:
         want.add("primary")
@@ -633,7 +647,21 @@ def judge_perturbation(p: Pert, col: common.Collector,
                 col.count("candidates_rejected_as_invalid")
                 return want, done
             done.add("meta")
-            judged(v, "meta", info)
+            if judged(v, "meta", info):
+                # tab and line feed: literal in element text, character references in attributes
+                v, info = try_candidate(p, H.WHITESPACE)
+                if v == "invalid":
+                    col.count("candidates_rejected_as_invalid")
+                elif v == "attr-altered" and isinstance(info.get("read_back"), str) and \
+                        __import__("re").sub(r"\n[ \t]+", "\n", info["read_back"]) == H.WHITESPACE:
+                    # one mechanism for every element text: the templates indent whole blocks,
+                    # so the indentation of the block is inserted after each line feed
+                    col.ev()
+                    col.count("perturbed:whitespace")
+                    _viol(col, ("line-feed-in-text-gets-block-indentation", "element-text"),
+                          dict(base, value_domain="whitespace", **info))
+                else:
+                    judged(v, "whitespace", info)
     return want, done
 
 
@@ -847,7 +875,8 @@ def run(tier: str, col: common.Collector) -> None:
                                   "elements cannot be perturbed")
     entry_sources = [(m, 2 if tier == "quick" else 12) for m in MAIN_SOURCES if m in usable]
     entry_sources += [(n, 1 if tier == "quick" else 4) for n in usable
-                      if n in ("feat:table-key-snrefs", "feat:sub-component-plain")]
+                      if n in ("feat:table-key-snrefs", "feat:sub-component-plain",
+                               "feat:two-containers-inheritance")]
     perts = plan(tier, usable, col)
     lap("plan")
     r = random.Random(common.seed() + 5)
